@@ -19,6 +19,8 @@ def monitors(ctx):
 
 def run(ctx):
     monitor.enable(*monitors(ctx))
+    from .. import w_suite
+    w_suite.maybe(ctx)      # thorough tier: the repository's own tests under this property's monitors
     ctx.floor('C01.merge_results', 500)
     ctx.floor('C01.merge_results_n3', 50)
     w_alg.drive_merge(ctx, ctx.tier)
